@@ -368,16 +368,17 @@ Proof.
   - rewrite (cl_closure_absent _ _ Hn) in Hc. injection Hc as <-. destruct Hin.
 Qed.
 
-(* objects: no cycle test is made; none is needed as long as the object's name is the target of no edge and
-   is not among the candidates (candidates are interface names, and type names are unique) *)
+(* objects: the cycle test (made since self_name is the object's name) is not what keeps the graph acyclic;
+   that the object's name is the target of no edge and is not among the candidates is enough (candidates are
+   interface names, and type names are unique) *)
 Theorem cl_add_object_acyclic st extend name cands new_fields st' :
   ClWf (cls_graph st) -> ClAcyclic (cls_graph st) ->
   (forall a, ~ ClEdge (cls_graph st) a name) -> ~ In name cands ->
   cl_add_object st extend name cands new_fields = Some st' ->
   ClWf (cls_graph st') /\ ClAcyclic (cls_graph st') /\ forall a, ~ ClEdge (cls_graph st') a name.
 Proof.
-  intros Hwf Hac Hnoin Hnc H. unfold cl_add_object in H.
-  destruct (cl_additional_implements _ _ _ None cands) as [impls|] eqn:Ea; [|discriminate].
+  intros Hwf Hac Hnoin Hnc H. unfold cl_add_object, cl_add_object_with in H.
+  destruct (cl_additional_implements _ _ _ (Some name) cands) as [impls|] eqn:Ea; [|discriminate].
   injection H as <-. cbn [cls_graph].
   assert (Hreach : forall p, ClReach (cls_graph st) p name -> p = name).
   { assert (G : forall p q, ClReach (cls_graph st) p q -> q = name -> p = name).
@@ -416,6 +417,130 @@ Proof.
   - intros (d & Hd & Hp). destruct (streq (cld_name d) name) eqn:E; [|destruct Hp].
     apply streq_eq in E. eauto.
   - intros (d & Hd & <- & Hp). exists d. split; auto. now rewrite streq_refl.
+Qed.
+
+(* ------------------------------------------------------------------ no interface is picked twice *)
+
+Lemma cl_nodup_snoc (l : list str) n : NoDup l -> ~ In n l -> NoDup (l ++ [n]).
+Proof.
+  intros Hl Hn. apply cl_nodup_app; [exact Hl|repeat constructor; intros []|]. intros y [<-|[]]. exact Hn.
+Qed.
+
+Lemma cl_insert_nodup l n : NoDup l -> NoDup (cl_insert l n).
+Proof.
+  intros H. unfold cl_insert. destruct (cl_mem n l) eqn:E; [exact H|].
+  apply cl_mem_false in E. apply cl_nodup_snoc; auto.
+Qed.
+
+Lemma cl_fold_insert_nodup l : forall acc, NoDup acc -> NoDup (fold_left cl_insert l acc).
+Proof. induction l as [|n l IH]; intros acc H; cbn [fold_left]; [exact H|]. apply IH. now apply cl_insert_nodup. Qed.
+
+Lemma cl_direct_parents_nodup g n : NoDup (cl_direct_parents g n).
+Proof.
+  unfold cl_direct_parents. destruct (cl_mem n (clg_nodes g)); [|constructor].
+  apply cl_fold_insert_nodup. constructor.
+Qed.
+
+Lemma cl_direct_parents_In g n p : ClWf g -> (In p (cl_direct_parents g n) <-> ClEdge g n p).
+Proof.
+  intros Hwf. unfold cl_direct_parents. destruct (cl_mem n (clg_nodes g)) eqn:E.
+  - rewrite cl_fold_insert_In, cl_neighbors_In. cbn [In]. tauto.
+  - apply cl_mem_false in E. split; [intros []|]. intros He. destruct (Hwf _ _ He) as [Hn _]. contradiction.
+Qed.
+
+Lemma cl_accept_names_nodup ifaces cls : forall st,
+  NoDup (fst st) -> NoDup (fst (cl_accept_names ifaces cls st)).
+Proof.
+  unfold cl_accept_names. induction cls as [|n cls IH]; intros st H; cbn [fold_left]; [exact H|].
+  apply IH. destruct (cl_mem n (fst st)) eqn:E; [exact H|]. cbn [fst].
+  apply cl_mem_false in E. apply cl_nodup_snoc; auto.
+Qed.
+
+Lemma cl_try_accept_nodup ifaces g self cand st st' :
+  NoDup (fst st) -> cl_try_accept ifaces g self cand st = Some st' -> NoDup (fst st').
+Proof.
+  intros Hnd H. unfold cl_try_accept in H. destruct (cl_closure g cand) as [cls|]; [|discriminate].
+  destruct (_ || _); injection H as <-; [exact Hnd|]. now apply cl_accept_names_nodup.
+Qed.
+
+(* what additional_implements returns lists no name twice and none of the parents `self` already has *)
+Lemma cl_additional_implements_fresh ifaces g existing n cands impls :
+  cl_additional_implements ifaces g existing (Some n) cands = Some impls ->
+  NoDup impls /\ forall x, In x impls -> ~ In x (cl_direct_parents g n).
+Proof.
+  unfold cl_additional_implements. destruct ifaces as [|i0 ifaces0]; [intros [= <-]; split; [constructor|intros x []]|].
+  set (ifaces := i0 :: ifaces0). set (already := cl_direct_parents g n).
+  set (accum := fold_left _ already existing).
+  assert (G : forall cs st r,
+            match st with Some s => NoDup (fst s) | None => True end ->
+            fold_left (fun st c => match st with None => None | Some st' => cl_try_accept ifaces g (Some n) c st' end)
+                      cs st = Some r -> NoDup (fst r)).
+  { induction cs as [|c cs IH]; intros st r Hst Hr; cbn [fold_left] in Hr.
+    - subst st. exact Hst.
+    - destruct st as [s|].
+      + eapply IH; [|exact Hr]. destruct (cl_try_accept ifaces g (Some n) c s) eqn:Et; [|exact I].
+        eapply cl_try_accept_nodup; eauto.
+      + exfalso. clear - Hr. induction cs; cbn in Hr; [discriminate|auto]. }
+  intros H.
+  destruct (fold_left _ cands (Some (already, accum))) as [[accepted acc']|] eqn:Ef; [|discriminate].
+  injection H as <-.
+  pose proof (G cands (Some (already, accum)) (accepted, acc') (cl_direct_parents_nodup g n) Ef) as Hnd.
+  cbn [fst] in Hnd. split; [now apply NoDup_filter|].
+  intros x Hx. apply filter_In in Hx as [_ Hn]. now apply negb_true_iff, cl_mem_false in Hn.
+Qed.
+
+Lemma cl_declared_snoc defs d n :
+  cl_declared (defs ++ [d]) n = cl_declared defs n ++ (if streq (cld_name d) n then cld_impls d else []).
+Proof. unfold cl_declared. rewrite flat_map_app. cbn [flat_map]. now rewrite app_nil_r. Qed.
+
+(* the step shared by cl_add_interface and cl_add_object: appending a definition of `name` whose implements list
+   comes from additional_implements with self_name = name keeps every declared list duplicate-free and inside
+   the graph's edges *)
+Lemma cl_append_def_nodup ifaces g existing defs name cands impls extend new_fields :
+  ClWf g ->
+  (forall n p, In p (cl_declared defs n) -> ClEdge g n p) ->
+  (forall n, NoDup (cl_declared defs n)) ->
+  cl_additional_implements ifaces g existing (Some name) cands = Some impls ->
+  let d := {| cld_name := name; cld_extend := extend; cld_impls := impls; cld_fields := new_fields |} in
+  (forall n, NoDup (cl_declared (defs ++ [d]) n)) /\
+  (forall n p, In p (cl_declared (defs ++ [d]) n) -> ClEdge (cl_link g name impls) n p).
+Proof.
+  intros Hwf Hsound Hnd Ha d. destruct (cl_additional_implements_fresh _ _ _ _ _ _ Ha) as [Hni Hfresh]. split.
+  - intros n. rewrite cl_declared_snoc. cbn [cld_name cld_impls d].
+    destruct (streq name n) eqn:E; [|rewrite app_nil_r; apply Hnd].
+    apply streq_eq in E. subst n. apply cl_nodup_app; auto.
+    intros x Hx' Hx. apply (Hfresh x Hx'). apply cl_direct_parents_In; auto.
+  - intros n p Hp. rewrite cl_declared_snoc in Hp. cbn [cld_name cld_impls d] in Hp.
+    apply cl_link_spec. apply in_app_or in Hp as [Hp|Hp]; [left; now apply Hsound|].
+    destruct (streq name n) eqn:E; [|destruct Hp]. apply streq_eq in E. subst n. now right.
+Qed.
+
+(* C32_closure_no_duplicates: an object definition or extension never lists an interface the object already
+   lists (self_name = Some name since repair fix2-c32-1) *)
+Theorem cl_add_object_nodup st extend name cands new_fields st' :
+  ClWf (cls_graph st) ->
+  (forall n p, In p (cl_declared (cls_objs st) n) -> ClEdge (cls_graph st) n p) ->
+  (forall n, NoDup (cl_declared (cls_objs st) n)) ->
+  cl_add_object st extend name cands new_fields = Some st' ->
+  (forall n, NoDup (cl_declared (cls_objs st') n)) /\
+  (forall n p, In p (cl_declared (cls_objs st') n) -> ClEdge (cls_graph st') n p).
+Proof.
+  intros Hwf Hsound Hnd H. unfold cl_add_object, cl_add_object_with in H.
+  destruct (cl_additional_implements _ _ _ (Some name) cands) as [impls|] eqn:Ea; [|discriminate].
+  injection H as <-. cbn [cls_objs cls_graph]. eapply cl_append_def_nodup; eauto.
+Qed.
+
+Theorem cl_add_interface_nodup st extend name cands new_fields st' :
+  ClWf (cls_graph st) ->
+  (forall n p, In p (cl_declared (cls_ifaces st) n) -> ClEdge (cls_graph st) n p) ->
+  (forall n, NoDup (cl_declared (cls_ifaces st) n)) ->
+  cl_add_interface st extend name cands new_fields = Some st' ->
+  (forall n, NoDup (cl_declared (cls_ifaces st') n)) /\
+  (forall n p, In p (cl_declared (cls_ifaces st') n) -> ClEdge (cls_graph st') n p).
+Proof.
+  intros Hwf Hsound Hnd H. unfold cl_add_interface in H.
+  destruct (cl_additional_implements _ _ _ (Some name) cands) as [impls|] eqn:Ea; [|discriminate].
+  injection H as <-. cbn [cls_ifaces cls_graph]. eapply cl_append_def_nodup; eauto.
 Qed.
 
 Lemma cl_index_where_spec p defs : forall i0 i,
